@@ -24,9 +24,12 @@
 
    No proofs in this file. *)
 From Coq Require Import List ZArith Bool.
-From Verif Require Import Lib.Vec2 C01.Model C01.Spec.
+From Verif Require Import Lib.VecN C01.Model C01.Spec.
 Import ListNotations.
 Open Scope Z_scope.
+
+Section WithDim.
+Context {D : Dim}.
 
 Record rootacc := mkRoot { ro_req : vec; ro_np : vec; ro_used : vec; ro_npu : vec }.
 
@@ -123,3 +126,5 @@ Fixpoint benign_history (s : state) (h : list op) : bool :=
   | [] => true
   | o :: t => (negb (resets s o) || benign (step s o)) && benign_history (step s o) t
   end.
+
+End WithDim.
